@@ -17,6 +17,7 @@ RULE = ("requests `add|sub|cadd|csub <form> <lhs> <rhs>` over Decimal/Decimal, D
 BUILDS = {"quick": [("dev", ()), ("release", ())],
           "thorough": [("dev", ()), ("release", ()), ("release", ("packed",)), ("o0-nochk", ())]}
 MODE_INDEPENDENT = True      # half of every batch runs under a non-default thread rounding mode
+ASSUMPTIONS = [C.GRID_NOTE]
 REQUIRED_SITES = {}
 BUDGET = {"quick": 20, "thorough": 300}
 N_RANDOM = {"quick": 12000, "thorough": 40000}
@@ -129,6 +130,9 @@ def gen(rng, tier, shard, batch):
         if _CONSTRUCTED is None:
             _CONSTRUCTED = constructed()
         reqs += _CONSTRUCTED[shard::E.NCPU]
+        for a, p, b, q in C.small_grid(tier, shard, E.NCPU):
+            reqs.append("add vv %s %s" % (G.fD(a, p), G.fD(b, q)))
+            reqs.append("csub vv %s %s" % (G.fD(a, p), G.fD(b, q)))
     for _ in range(N_RANDOM[tier]):
         op = rng.choice(OPS)
         ltok, rtok = C.shape_operands(rng)
